@@ -113,8 +113,22 @@ Fixpoint is_prefix (a b : bytes) : bool :=
    must be exactly the model's; on an error the implementation must report an
    error too and may have released only a prefix of what the model released
    (everything the model releases is authenticated by the digest). *)
+(* reader kind "ioerr": the source delivers [stream] and then fails with an I/O error that is not
+   end-of-file.  Whatever the bytes delivered so far would mean at a clean end of input, the
+   decoder must report an error (never a clean end), having released at most what the model
+   releases for these bytes; with nothing delivered NewDecoder itself fails. *)
+Definition is_ioerr (args : list sx) : bool :=
+  match args with [_; _; _; _; _; k] => tag_is k "ioerr" | _ => false end.
 Definition judge_mi_dec (args : list sx) (impl : sx) : bool :=
   let m := op_mi_dec args in
+  if is_ioerr args then
+    match m, impl with
+    | SL [t; SB mo; ms], SL [t'; SB io; is] => tag_is t' "dec" && tag_is is "err" && is_prefix io mo
+    | SL [t; SB mo; ms], SL [t'] =>
+        tag_is t' "newerr" && match args with _ :: SB stream :: _ => (lenN stream <? 8) | _ => false end
+    | _, _ => sx_eqb m impl
+    end
+  else
   match m, impl with
   | SL [t; SB mo; ms], SL [t'; SB io; is] =>
       if tag_is ms "err" then tag_is t' "dec" && tag_is is "err" && is_prefix io mo
